@@ -1,6 +1,6 @@
 (* C19 — Optional per-user files fail soft.
    Model: Model/Config.v (+ Model/Currency.v), with the REPAIRED behaviour R1-R4 described there
-   (the code as it stands violates C19 in those four places; the check reports them).
+   (R1-R4 were genuine defects found by this check; they are repaired in /repo by fix: commits, see known_findings.json).
    The exception classes each handler catches come from the regenerated except lists
    (Gen/GenInterp.v) through GenFacts/ConfigFacts.v; the built-in table and the option kinds from
    Gen/GenCurrency.v and Gen/GenConfig.v.  Statements only.
